@@ -58,6 +58,21 @@ func locOf(frame string) string {
 	return ""
 }
 
+var reCannot = regexp.MustCompile(`cannot allocate ([0-9]+)-byte block`)
+
+// anchorFn: for failure kinds whose innermost frame is incidental (non-termination sampled at an arbitrary moment, gradual
+// memory exhaustion dying at an arbitrary allocation) a known finding names an anchor function (the owner of the loop);
+// if one is on the stack it becomes the signature function.
+func anchorFn(kind string, frames []string) (string, bool) {
+	loadKnown()
+	for _, fr := range frames {
+		if knownAnchor[kind+"|"+fnOf(fr)] {
+			return fnOf(fr), true
+		}
+	}
+	return "", false
+}
+
 var (
 	reDigits  = regexp.MustCompile(`-?\b(0x[0-9a-fA-F]+|[0-9]+)\b`)
 	reBracket = regexp.MustCompile(`\[[^\]]*\]`)
@@ -415,6 +430,13 @@ func classifyDeath(stderr string) Failure {
 	case strings.Contains(low, "out of memory") || strings.Contains(low, "cannot allocate memory") || strings.Contains(low, "errno=12"):
 		f.Kind = "death-oom"
 		f.Class = "out of memory"
+		// a small request failing in a full address space: memory was exhausted gradually (an accumulating loop); the
+		// function that happened to allocate last is incidental
+		if m := reCannot.FindStringSubmatch(low); m == nil {
+			f.Kind, f.Class = "death-exhaust", "gradual exhaustion"
+		} else if n, err := strconv.ParseUint(m[1], 10, 64); err == nil && n < bigAlloc {
+			f.Kind, f.Class = "death-exhaust", "gradual exhaustion"
+		}
 	case strings.Contains(low, "fatal error: "):
 		f.Kind = "death-fatal"
 		i := strings.Index(low, "fatal error: ")
@@ -433,6 +455,8 @@ func classifyDeath(stderr string) Failure {
 	}
 	if f.Kind == "death-stack" {
 		f.Fn = cycleSet(fr)
+	} else if a, ok := anchorFn(f.Kind, fr); ok && f.Kind == "death-exhaust" {
+		f.Fn = a
 	} else if len(fr) > 0 {
 		f.Fn = fnOf(fr[0])
 		f.Loc = locOf(fr[0])
@@ -487,6 +511,9 @@ func hangFailure(samples [][]string) Failure {
 	// frames innermost first, from the common prefix
 	for i := len(common) - 1; i >= 0; i-- {
 		f.Frames = append(f.Frames, common[i])
+	}
+	if a, ok := anchorFn("hang", f.Frames); ok {
+		f.Fn = a
 	}
 	return f
 }
